@@ -27,6 +27,7 @@ import (
 	"net/url"
 	"os"
 	"path"
+	"path/filepath"
 	"sort"
 	"strconv"
 	"strings"
@@ -614,6 +615,10 @@ func (b Browse) ServeArchive(w http.ResponseWriter, r *http.Request, dirPath str
 		}
 
 		if bc.Fs.IsHidden(info) {
+			if info.IsDir() {
+				// what is under a hidden directory (e.g. an internal location) is hidden with it
+				return filepath.SkipDir
+			}
 			return nil // Hidden files (e.g. the Casketfile) are not archived either
 		}
 
